@@ -73,6 +73,11 @@ def run_world(item, with_mirrors):
         pool = simple_pool(None, pool_size=item.get('pool_size', 1), shards=shards)
         pool['default_role'] = 'any'
         pool['primary_reads_enabled'] = True
+        if item.get('prewarm'):
+            # the pooler's own statements on a new server connection (prewarmer plugin) are requests sent to the mirrored
+            # server like any other; a mirror connection gets copies of them and nothing of its own
+            pool['query_parser_enabled'] = True
+            pool['plugins'] = {'prewarmer': {'enabled': True, 'queries': ["SELECT 'prewarm-marker'"]}}
         w.start(pools={'db': pool}, general={'connect_timeout': 1500})
         c = Client(w.port, name='A', timeout=6.0)
         if c.startup.end != 'Z':
@@ -344,6 +349,7 @@ def check_c20(prop, tier, seed):
               'pool_size': 1 if j % 4 else 2}
         if j % 7 == 3:
             it['dead'] = 'm2'
+        it['prewarm'] = j % 3 == 1
         # directed: mirrors that never take anything, then more requests than the channel holds
         if j % 5 == 0:
             stuck = ['stall', 'hang_startup']
